@@ -152,7 +152,7 @@ template <class TR> struct ConvexChain {
         if (bhrz03_decrease(prev_y_cert, cur_y_cert) != 1) { across_reported = true; violation(key("certificate", op.name, TR::nnc() ? ":across-representations-nnc" : ":across-representations"), "the certificate of the iterate did not decrease between two non-stationary steps: previous iterate " + show(prev_y_cert) + ", current iterate " + show(cur_y_cert) + " (a strictly larger set, possibly another representation); y=" + show(SY)); } }
       if (op.cert == CERT_BHRZ03 && have_cur) { prev_y_cert = cur_y_cert; have_prev = true; }
       if (dec == -2) { hx::inconclusive("certificate_descriptions"); }
-      else if (dec != 1 && TR::nnc()) { hx::inconclusive("certificate_recomputed_on_point_set_for_nnc"); return true; }   // the documented certificate of NNC polyhedra is taken on the epsilon-representation, ours on the point set: not a refutation
+      else if (dec != 1 && TR::nnc()) { hx::inconclusive("certificate_recomputed_on_point_set_for_nnc"); }   // the documented certificate of NNC polyhedra is taken on the epsilon-representation, ours on the point set: not a refutation
       else if (dec != 1) { violation(key("certificate", op.name, TR::nnc() ? ":nnc-counts" : ""), "non-stationary step without strict decrease of the recomputed certificate: " + txt + "; y=" + show(SY) + " x=" + show(SX) + " result=" + show(SZ)); return false; }
       if (!y_empty) {
         D c1(y), c2(z); int pc = TR::ppl_cert_compare(op.cert, c1, c2);
